@@ -155,7 +155,8 @@ def sigma_default(E):
     S = pyPRISM.System(['A', 'B'], kT=kT)
     S.domain = pyPRISM.Domain(length=N, dr=dr)
     dA = dr * 1; dB = dr * 3
-    S.diameter['A'] = dA; S.diameter['B'] = dB
+    S.diameter[['A', 'B']] = dr * 3          # first assignment, then both re-assigned: nothing stale may survive
+    S.diameter['B'] = dB; S.diameter['A'] = dA
     S.density['A'] = E.real('rhoA', pos=True, default=0.2); S.density['B'] = E.real('rhoB', pos=True, default=0.3)
     sx = dr * 2 if E.sym else dr * 2      # explicit sigma for the BB pair, different from d_B
     high = E.real('high', default=1e6)
